@@ -121,7 +121,9 @@ TEXTS_BLANKS = [('blank-lf', 'a \nb\t\n'), ('blank-crlf', 'a \r\nb\t \r\nc'), ('
 TEXTS_AMBIGUOUS = [('lone-cr', 'a\rb\r'), ('cr-cr-lf', 'a\r\r\nb')]
 
 UIDS = ['A', 'José García <jose@example.es>', '山田 太郎 (テスト) <taro@example.jp>',
-        '\U0001F600 Emoji <e@example.org>', 'x' * 255, 'Name (with) (two comments) <weird@example.org>', ' leading space', '<only@email.example>']
+        '\U0001F600 Emoji <e@example.org>', 'x' * 255, 'Name (with) (two comments) <weird@example.org>', ' leading space', '<only@email.example>',
+        # the empty user id (a zero-length packet; its part of the hash input is still the five framing octets B4 00 00 00 00) and a single blank
+        '', ' ']
 
 
 class Prop(object):
